@@ -49,6 +49,17 @@ def items_table(prog):
     return out
 
 
+A2ML_CALLS = re.compile(r"a2ml::(parse_aml_\w+|tokenize_\w+|require_\w+|nexttoken|make_errtxt|parse_a2ml)$|HashMap(<.*>)?::insert$|Vec(<.*>)?::push$")
+
+
+def a2ml_table(prog):
+    """decision table of the A2ML scanner and type parser (a2ml.rs): which sub-parser is called for which token with which flags,
+    which A2mlTypeSpec is built, how the scan position and the include state machine move"""
+    A = sym.Analyzer(prog, opaque=[r"a2ml::.*", r"loader::.*"])
+    fids = sorted(f for f, b in prog.bodies.items() if b.file == "a2lfile/src/a2ml.rs" and b.kind != "Closure" and re.match(r"a2ml::(parse_a|tokenize_|require_|nexttoken|make_errtxt)", f))
+    return diag.module_table(prog, A, fids, A2ML_CALLS, adts=("a2ml::A2mlTypeSpec", "a2ml::A2mlTaggedTypeSpec"))
+
+
 def run(chk):
     prog = mir.prog()
     # ------------------------------------------------------------------ R18-scalars
@@ -301,6 +312,8 @@ def run(chk):
             chk.add(Finding("R18-typespec", "R18-typespec::register::" + w[0], "parse_a2ml does not store a named %s definition in `%s` (found: %s): a later reference to the name fails or resolves to another kind" % (w[1][0], w[0], sorted(stored)), pb.where()))
         nts += len(want & stored)
     chk.rule("R18-typespec", "A2ML compound type parsers that build exactly their own A2mlTypeSpec variant", nts, floor=4)
+    # ------------------------------------------------------------------ R18-aml
+    diag.compare(chk, "R18-aml", "a2ml", a2ml_table(prog), "decisions of the A2ML scanner and type parser (sub-parser calls with their literal flags, A2mlTypeSpec constructions, scan position / include state steps) with their control predicates, compared with the reviewed table", floor=100)
     # ------------------------------------------------------------------ R18-maxlen
     from . import c06
     diag.compare(chk, "R18-maxlen", "parser", c06.parser_table(prog), "length test of char[n] strings (get_string_maxlen) with its control predicate, compared with the reviewed table", floor=1,
